@@ -52,9 +52,32 @@ CLAIM = {
             'are instances of the general theorems. R6 (scale 1e-12..1e12, relative comparisons) oracle; the model '
             'statement is the affine-in-log10 form proved in generalDb_real etc. R7 (long-lived / shared objects) by '
             'theorem for setter histories (fs_C_invariant, fs_history_independent, oh_ranges_after_history), '
-            'oracle for query purity, idempotent repeated setters and a second user of the same object. Defects '
+            'oracle for query purity, idempotent repeated setters and a second user of the same object. '
+            'R8 (argument forms / equivalent entry points): positional vs keyword vs default vs explicit-default for '
+            'every parameter, scalar = 0-d = length-1, constructor = setter = replacement path, wrappers forward '
+            'num_walls / extra_args — oracle robust.argforms + alternating call forms in the correspondence; model side '
+            'theorem equivalent_entry_points. R9 (counts): wall / sector count as int, numpy int8..uint64, intp, bool, '
+            '0-d, values up to 1000 — oracle robust.counts + typed counts in the correspondence; theorem '
+            'ps7_wall_count_linear (the count enters through its value only). R10 (heterogeneous lists): distance '
+            'lists mixing int / float / float32 / int16 / float16 elements vs the promoted twin — oracle + '
+            'correspondence (layout "mixed"); per-user lists-of-arrays do not exist in this API. R11 (non-mutating '
+            'API): plot helpers (stub / recording / raising / Agg axes, stand-alone figure, list / 2-D / empty / '
+            'too-small distances, extra_args, direct _impl call), every calc_* / which_* query, repr / str / latex / '
+            'getters / helper methods, copy / deepcopy / pickle, with all four flag combinations and a non-default '
+            'sigma — oracle robust.nonmutating, `plot` / `plotx` / `nop` / `flags` / `shadow` ops in the driver protocol '
+            'and the histories; theorems plot_helper_restores_flags_in_source (pattern regenerated from the source), '
+            'plot_leaves_object_unchanged, plot_calls_can_be_dropped, plot_outcome. R12 (container insertion order): '
+            'does NOT apply — no dict / set / named containers in the path-loss and antenna API (setter ORDER '
+            'independence is covered by fs_history_independent and the history oracle). R13 (derived objects): copies '
+            'and pickle round trips changed further, parent changed after the child was derived — oracle robust.derived; '
+            'in the model states are values, so independence holds by construction. R14 (counts 257 / 258 / 300 / 65537 '
+            'distances, angles, wall-count arrays and setter calls): oracle robust.bigcount + three N >= 257 histories '
+            'in every correspondence run; all theorems are for unbounded lists / histories. An exception raised by the '
+            'library while a history or oracle case is being prepared is reported as a failing input (call '
+            'history.exception), never as a harness error. Defects '
             'fixed: PS7 which_distance_dB was `pass`; integer-dtype / list distances (reduced precision, TypeError '
-            'in Okumura-Hata); failed plot left shadowing switched off.',
+            'in Okumura-Hata); failed plot left shadowing switched off; policy flags tested with `is True`; PS7 wall '
+            'count overflowing in int8 / uint8; 0-d wall count with a scalar distance.',
 }
 
 PYERRS = ['ValueError', 'TypeError', 'IndexError', 'AssertionError', 'ZeroDivisionError', 'AttributeError',
@@ -86,9 +109,21 @@ def build(case):
     elif kind == 'gpp':
         o = pl.PathLoss3GPP1()
     elif kind == 'fs':
-        o = pl.PathLossFreeSpace(*case['ctor']) if case.get('ctor') else pl.PathLossFreeSpace()
+        _FORM[0] += 1
+        if not case.get('ctor'):
+            o = pl.PathLossFreeSpace()
+        elif _FORM[0] % 3 == 0:
+            o = pl.PathLossFreeSpace(*case['ctor'])
+        elif _FORM[0] % 3 == 1:
+            o = pl.PathLossFreeSpace(fc=case['ctor'][1], n=case['ctor'][0])
+        else:
+            o = pl.PathLossFreeSpace(case['ctor'][0], fc=case['ctor'][1])
     elif kind == 'ps7':
-        o = pl.PathLossMetisPS7(*case['ctor']) if case.get('ctor') else pl.PathLossMetisPS7()
+        _FORM[0] += 1
+        if not case.get('ctor'):
+            o = pl.PathLossMetisPS7()
+        else:
+            o = pl.PathLossMetisPS7(*case['ctor']) if _FORM[0] % 2 else pl.PathLossMetisPS7(fc=case['ctor'][0])
     elif kind == 'oh':
         o = pl.PathLossOkomuraHata()
     elif kind == 'ant':
@@ -114,20 +149,25 @@ def apply_setter(o, name, v):
         return errname(e)
 
 
+_FORM = [0]     # R8: successive calls alternate between the positional and the keyword form of the arguments
+
+
 def call_db(o, d, nw=None):
+    _FORM[0] += 1
     with warnings.catch_warnings():
         warnings.simplefilter('ignore')
         if nw is None:
-            return o.calc_path_loss_dB(d)
-        return o.calc_path_loss_dB(d, num_walls=nw)
+            return o.calc_path_loss_dB(d) if _FORM[0] % 2 else o.calc_path_loss_dB(d=d)
+        return o.calc_path_loss_dB(d, num_walls=nw) if _FORM[0] % 2 else o.calc_path_loss_dB(num_walls=nw, d=d)
 
 
 def call_lin(o, d, nw=None):
+    _FORM[0] += 1
     with warnings.catch_warnings():
         warnings.simplefilter('ignore')
         if nw is None:
-            return o.calc_path_loss(d)
-        return o.calc_path_loss(d, num_walls=nw)
+            return o.calc_path_loss(d) if _FORM[0] % 2 else o.calc_path_loss(d=d)
+        return o.calc_path_loss(d, num_walls=nw) if _FORM[0] % 2 else o.calc_path_loss(num_walls=nw, d=d)
 
 
 def det_db(o, d, nw=None):
@@ -177,7 +217,7 @@ def logical_shape(values, fmt):
         return (len(values),)
     if fmt.get('layout') == '0d':
         return ()
-    if fmt.get('layout') in ('list', 'tuple'):
+    if fmt.get('layout') in ('list', 'tuple', 'mixed'):
         return (len(values),)
     return tuple(fmt.get('shape', [len(values)]))
 
@@ -190,6 +230,32 @@ def logical_walls(nws, fmt, n):
     if fmt and fmt.get('layout') == 'bcast':
         return list(nws) * fmt['shape'][0]
     return list(nws)
+
+
+COUNT_TYPES = ['int', 'int8', 'uint8', 'int16', 'uint16', 'int32', 'uint32', 'int64', 'uint64', 'intp', 'bool', '0d']
+
+
+def count_fits(w, ct):
+    if ct == 'bool':
+        return w in (0, 1)
+    if ct in ('int', '0d'):
+        return True
+    if w < 0 and ct.startswith('u'):
+        return False
+    info = np.iinfo(ct)
+    return info.min <= w <= info.max
+
+
+def make_count(w, fmt):
+    """R9: the wall count / sector count as another integer type"""
+    ct = (fmt or {}).get('wstype', 'int')
+    if ct == 'int':
+        return int(w)
+    if ct == 'bool':
+        return bool(w)
+    if ct == '0d':
+        return np.array(int(w))
+    return np.dtype(ct).type(w)
 
 
 def make_scalar(v, fmt):
@@ -210,6 +276,18 @@ def make_array(values, fmt, dtype_default='float64'):
     if lay in ('list', 'tuple'):
         seq = [int(v) if dt.startswith(('int', 'uint')) else float(v) for v in values]
         return seq if lay == 'list' else tuple(seq)
+    if lay == 'mixed':
+        # R10: a list whose ELEMENTS differ in type (values are multiples of 0.5, exact in every type used)
+        seq = []
+        for i, v in enumerate(values):
+            whole = float(v).is_integer()
+            t = i % 6
+            seq.append(int(v) if (t == 0 and whole) else np.float32(v) if t == 1 else
+                       np.int16(v) if (t == 2 and whole and abs(v) < 3e4) else np.float64(v) if t == 3 else
+                       np.float16(v) if (t == 4 and abs(v) <= 2048) else float(v))
+        if fmt.get('first') == 'int' and values and float(values[0]).is_integer():
+            seq[0] = int(values[0])
+        return seq
     if lay == '0d':
         return np.array(base[0])
     shape = tuple(fmt.get('shape', [len(values)]))
@@ -255,7 +333,9 @@ def fmt_branches(ctx, fmt, prefix=''):
         ctx.branch(prefix + ('R1:uint8-array' if dt == 'uint8' else 'R1:int-array'))
     elif dt in NARROW_FLOATS:
         ctx.branch(prefix + 'R1:narrow-float-array')
-    if lay in ('list', 'tuple'):
+    if lay == 'mixed':
+        ctx.branch(prefix + 'R10:mixed-list')
+    elif lay in ('list', 'tuple'):
         ctx.branch(prefix + 'R1:list-or-tuple')
     elif lay == '0d':
         ctx.branch(prefix + 'R2:0d')
@@ -359,7 +439,8 @@ def agg_axes():
         except Exception:
             _AGG['ax'] = None
     ax = _AGG['ax']
-    if ax is not None:
+    _AGG['uses'] = _AGG.get('uses', 0) + 1
+    if ax is not None and _AGG['uses'] % 64 == 0:
         ax.cla()
     return ax
 
@@ -368,13 +449,15 @@ def flags_of(o):
     return 's%dh%d' % (int(bool(o.handle_small_distances_bool)), int(bool(o.use_shadow_bool)))
 
 
-def do_plot(o, d, variant, raises=False):
+def do_plot(o, d, variant, raises=False, force_mpl=False):
     """one of the entry points / argument forms of the plot helper"""
     with warnings.catch_warnings():
         warnings.simplefilter('ignore')
         if raises:
             return o.plot_deterministic_path_loss_in_dB(d, ax=_AxRaises())
         v = variant % 5
+        if v >= 3 and not force_mpl and (variant // 5) % 6:
+            v = 0                      # matplotlib is slow: the real axes take part in a sixth of these calls
         if v == 0:
             return o.plot_deterministic_path_loss_in_dB(d, ax=_Ax())
         if v == 1:
@@ -482,24 +565,33 @@ def run_impl(case):
             elif name in ('n', 'fc', 'hbs', 'hms'):
                 r = apply_setter(o, name, make_scalar(op[1], fmt))
             elif kind == 'ps7' and name == 'db':
-                r = call_db(o, make_scalar(op[2], fmt), op[1])
+                r = call_db(o, make_scalar(op[2], fmt), make_count(op[1], fmt))
             elif kind == 'ps7' and name == 'lin':
-                r = call_lin(o, make_scalar(op[2], fmt), op[1])
+                r = call_lin(o, make_scalar(op[2], fmt), make_count(op[1], fmt))
             elif kind == 'ps7' and name == 'dba':
                 want_shape = logical_shape(op[2], fmt)
-                r = call_db(o, make_array(op[2], fmt), op[1])
+                r = call_db(o, make_array(op[2], fmt), make_count(op[1], fmt))
             elif kind == 'ps7' and name == 'dbw':
                 want_shape = logical_shape(op[2], fmt)
                 r = call_db(o, make_array(op[2], fmt), make_walls(op[1], fmt))
             elif kind == 'ps7' and name == 'wdb':
-                r = o.which_distance_dB(make_scalar(op[2], fmt), num_walls=op[1]) if op[1] != 0 or len(res) % 2 \
-                    else o.which_distance_dB(make_scalar(op[2], fmt))
+                wc = make_count(op[1], fmt)
+                if op[1] == 0 and len(res) % 2 == 0 and not (fmt or {}).get('wstype'):
+                    r = o.which_distance_dB(make_scalar(op[2], fmt))               # default wall count
+                elif len(res) % 3 == 0:
+                    r = o.which_distance_dB(make_scalar(op[2], fmt), wc)           # positional
+                else:
+                    r = o.which_distance_dB(PL=make_scalar(op[2], fmt), num_walls=wc)
             elif kind == 'ps7' and name == 'wdba':
                 want_shape = logical_shape(op[2], fmt)
-                r = o.which_distance_dB(make_array(op[2], fmt), num_walls=op[1])
+                r = o.which_distance_dB(make_array(op[2], fmt), num_walls=make_count(op[1], fmt))
             elif kind == 'ps7' and name == 'wl':
-                r = o.which_distance(make_scalar(op[2], fmt), num_walls=op[1]) if op[1] != 0 or len(res) % 2 \
-                    else o.which_distance(make_scalar(op[2], fmt))
+                wc = make_count(op[1], fmt)
+                if op[1] == 0 and len(res) % 2 == 0 and not (fmt or {}).get('wstype'):
+                    r = o.which_distance(make_scalar(op[2], fmt))
+                else:
+                    r = o.which_distance(pl=make_scalar(op[2], fmt), num_walls=wc) if len(res) % 3 \
+                        else o.which_distance(make_scalar(op[2], fmt), num_walls=wc)
             elif name == 'db':
                 r = call_db(o, make_scalar(op[1], fmt))
             elif name == 'dba':
@@ -800,10 +892,19 @@ def gen_case_ps7(ctx, rng, hist_len):
             ctx.branch('setter:ps7.' + op[0])
         elif r < 6:
             nw = -rng.randint(1, 3) if rng.chance(0.08) else (0 if rng.chance(0.4) else rng.randint(1, 6))
+            wfmt = None
+            if nw >= 0 and rng.chance(0.3):
+                if rng.chance(0.3):
+                    nw = rng.choice([27, 53, 100, 127, 128, 255, 256, 257, 300])
+                ct = rng.choice([t for t in COUNT_TYPES if count_fits(nw, t)])
+                wfmt = {'wstype': ct}
+                ctx.branch('corr:R9:count-type')
+                if nw >= 256:
+                    ctx.branch('corr:R9:count>=256')
             d = gen_dist(rng, -9.0, -3.0) if rng.chance(0.2) else gen_dist(rng, -1.0, 5.0)
             if nw >= 0 and not safe_scalar(o, d, nw):
                 continue
-            op = [rng.choice(['db', 'lin']), nw, d]
+            op = [rng.choice(['db', 'lin']), nw, d] + ([wfmt] if wfmt else [])
             ctx.branch('ps7:' + ('negative-walls' if nw < 0 else 'los' if nw == 0 else 'nlos'))
         elif r == 6 and rng.chance(0.6):
             nw = -rng.randint(1, 3) if rng.chance(0.08) else (0 if rng.chance(0.4) else rng.randint(1, 6))
@@ -814,6 +915,11 @@ def gen_case_ps7(ctx, rng, hist_len):
                 op = ['wdba', nw, [nice(rng, rng.uniform(0.0, 250.0)) for _ in range(rng.randint(1, 4))]]
             else:
                 op = ['wl', nw, nice(rng, logu(rng, -20.0, 0.0))]
+            if nw >= 0 and rng.chance(0.3):
+                if rng.chance(0.3):
+                    op[1] = nw = rng.choice([27, 53, 100, 255, 257, 300])
+                op.append({'wstype': rng.choice([t for t in COUNT_TYPES if count_fits(nw, t)])})
+                ctx.branch('corr:R9:count-type')
             ctx.branch('ps7:which_distance')
         elif r < 8:
             nw = 0 if rng.chance(0.4) else rng.randint(1, 6)
@@ -979,10 +1085,18 @@ def correspondence(ctx, n_cases, hist_len, depth):
             continue
         if c['ops']:
             cases.append(c)
+    big = []
+    for kind, N in (('fs', 257), ('oh', 300), ('ps7', 258)):
+        vals = [gen_dist(rng, -1.0, 3.0) for _ in range(N)]
+        hist = [fs_setter(rng) for _ in range(N)] if kind == 'fs' else [oh_setter(rng) for _ in range(N)] if kind == 'oh' \
+            else [['fc', nice(rng, logu(rng, 2.0, 5.0))] for _ in range(N)]
+        q = ['dba', 2, vals] if kind == 'ps7' else ['dba', vals]
+        big.append({'kind': kind, 'ctor': None, 'ops': hist + [['small', 1], ['shadow', 0], q, ['flags']]})
+        ctx.branch('corr:R14:N>=257')
     enum = enumerated_cases(depth)
     ctx.branch('enumerated-histories', len(enum))
     ctx.extra['enumerated_setter_histories'] = {'depth': depth, 'count': len(enum)}
-    cases = corpus_cases() + enum + cases
+    cases = corpus_cases() + big + enum + cases
     exact = nums = 0
     for i in range(0, len(cases), 2000):
         chunk = cases[i:i + 2000]
@@ -1312,6 +1426,8 @@ def fmt_class(fmt):
     if fmt.get('stype'):
         return 'R1:scalar:' + fmt['stype']
     dt, lay = fmt.get('dtype', 'float64'), fmt.get('layout', 'C')
+    if lay == 'mixed':
+        return 'R10:mixed-list'
     if lay in ('list', 'tuple'):
         return 'R1:' + lay + (':int' if dt in INT_TYPES else '')
     if dt != 'float64':
@@ -1707,9 +1823,9 @@ def do_nonmut(o, call, kind, d, nw):
     elif call == 'plot-impl':
         do_plot(o, arr, 2)
     elif call == 'plot-agg':
-        do_plot(o, arr, 3)
+        do_plot(o, arr, 3, force_mpl=True)
     elif call == 'plot-standalone':
-        do_plot(o, arr, 4)
+        do_plot(o, arr, 4, force_mpl=True)
     elif call == 'plot-too-small':
         do_plot(o, np.array([1e-30] + list(d), dtype=float), 0)
     elif call == 'plot-axes-raise':
@@ -1827,6 +1943,311 @@ def o_flagtypes(case):
     return None
 
 
+class _AxRec:
+    """axes stub that records what it is asked to plot"""
+
+    def __init__(self):
+        self.calls = []
+
+    def plot(self, *a, **k):
+        self.calls.append((tuple(np.asarray(x, dtype=float).ravel().tolist() for x in a), tuple(sorted(k))))
+
+
+def _same(a, b, tol=0.0):
+    a, b = np.asarray(a, dtype=float), np.asarray(b, dtype=float)
+    if a.shape != b.shape:
+        return False
+    if tol == 0.0:
+        return bool(np.array_equal(a, b, equal_nan=True))
+    return bool(np.all(np.abs(a - b) <= tol * np.maximum(1.0, np.maximum(np.abs(a), np.abs(b)))))
+
+
+def o_argforms(case):
+    """R8: positional / keyword / default / explicit-default forms of every documented parameter agree; scalar =
+    0-d = length-1 array; constructor path = setter path = later replacement; documented-equivalent entry points
+    (linear vs dB, which_distance vs which_distance_dB, helper vs public method) agree and forward every argument"""
+    pl, ag = _impl()
+    kind = case['kind']
+    if kind == 'ant':
+        for k in (3, 6):
+            a, b = ag.AntGainBS3GPP25996(k), ag.AntGainBS3GPP25996(number_of_sectors=k)
+            ang = np.array(case['angles'], dtype=float)
+            if not _same(a.get_antenna_gain(ang), b.get_antenna_gain(angle=ang)):
+                return 'R8:ant:keyword', 'positional and keyword construction / query differ'
+            for x in case['angles']:
+                r = (a.get_antenna_gain(x), a.get_antenna_gain(angle=x), a.get_antenna_gain(np.array(x)),
+                     np.asarray(a.get_antenna_gain(np.array([x]))).ravel()[0])
+                if not all(_same(r[0], y, 1e-12) for y in r[1:]):
+                    return 'R8:ant:scalar-0d-len1', 'angle %r: %r' % (x, r)
+        if not _same(ag.AntGainBS3GPP25996().get_antenna_gain(ang), ag.AntGainBS3GPP25996(3).get_antenna_gain(ang)):
+            return 'R8:ant:default', 'AntGainBS3GPP25996() differs from AntGainBS3GPP25996(3)'
+        om = [ag.AntGainOmni(), ag.AntGainOmni(None), ag.AntGainOmni(ant_gain=None), ag.AntGainOmni(0), ag.AntGainOmni(ant_gain=0.0)]
+        if not all(_same(x.get_antenna_gain(ang), np.ones(ang.shape)) and float(x.get_antenna_gain(angle=7.0)) == 1.0 for x in om):
+            return 'R8:ant:omni-default', 'omni antenna with default / None / 0 dBi gain is not 1'
+        g = ag.AntGainOmni(case['angles'][0] / 10.0)
+        if abs(float(g.get_antenna_gain(0.0)) - 10.0 ** (case['angles'][0] / 100.0)) > 1e-12 * float(g.get_antenna_gain(0.0)):
+            return 'R8:ant:omni-gain', 'AntGainOmni(%r) gain %r' % (case['angles'][0] / 10.0, g.get_antenna_gain(0.0))
+        return None
+    o, _ = build(case)
+    o.handle_small_distances_bool = True
+    nw = case.get('nw')
+    kw = _kw(nw)
+    ds = _dists(case)
+    arr = np.array(ds, dtype=float)
+    with warnings.catch_warnings():
+        warnings.simplefilter('ignore')
+        # ---- positional / keyword / default
+        for d in ds + [arr]:
+            ref = o.calc_path_loss_dB(d, **kw)
+            forms = {'keyword-d': o.calc_path_loss_dB(d=d, **kw)}
+            if kind == 'ps7':
+                forms['det-positional'] = np.maximum(o._calc_deterministic_path_loss_dB(d, nw), 0.0)
+                forms['det-keyword'] = np.maximum(o._calc_deterministic_path_loss_dB(d=d, num_walls=nw), 0.0)
+                forms['same-floor-helper'] = np.maximum(o._calc_PS7_path_loss_dB_same_floor(d, nw), 0.0)
+                if nw == 0:
+                    forms['default-walls'] = o.calc_path_loss_dB(d)
+                    forms['default-walls-lin'] = -10.0 * np.log10(o.calc_path_loss(d))
+            else:
+                forms['det'] = np.maximum(o._calc_deterministic_path_loss_dB(d), 0.0)
+            for name, v in forms.items():
+                if not _same(ref, v, 1e-12):
+                    return 'R8:%s:%s' % (kind, name), 'd=%r: %r vs calc_path_loss_dB %r' % (d, v, ref)
+            # ---- equivalent entry points: linear scale forwards every argument
+            lin = o.calc_path_loss(d, **kw)
+            if not _same(lin, 10.0 ** (-np.asarray(ref, dtype=float) / 10.0), 1e-12) or \
+                    not _same(lin, o.calc_path_loss(d=d, **kw)):
+                return 'R8:%s:linear-vs-dB' % kind, 'd=%r (walls %r): calc_path_loss %r, calc_path_loss_dB %r' % (d, nw, lin, ref)
+        # ---- scalar = 0-d = length-1
+        d = ds[0]
+        r = (o.calc_path_loss_dB(d, **kw), o.calc_path_loss_dB(np.array(d), **kw),
+             np.asarray(o.calc_path_loss_dB(np.array([d]), **kw)).ravel()[0],
+             np.asarray(o.calc_path_loss_dB([d], **kw)).ravel()[0])
+        if not all(_same(r[0], y, 1e-12) for y in r[1:]):
+            return 'R8:%s:scalar-0d-len1' % kind, 'd=%r: %r' % (d, r)
+        # ---- which_distance family
+        if kind != 'oh':
+            for p in case.get('pl', []):
+                ref = o.which_distance_dB(p, **kw)
+                forms = {'keyword-PL': o.which_distance_dB(PL=p, **kw),
+                         'via-linear': o.which_distance(10.0 ** (-p / 10.0), **kw),
+                         'via-linear-keyword': o.which_distance(pl=10.0 ** (-p / 10.0), **kw),
+                         '0d': o.which_distance_dB(np.array(p), **kw),
+                         'len1': np.asarray(o.which_distance_dB(np.array([p]), **kw)).ravel()[0]}
+                if kind == 'ps7':
+                    forms['positional-walls'] = o.which_distance_dB(p, nw)
+                    if nw == 0:
+                        forms['default-walls'] = o.which_distance_dB(p)
+                        forms['default-walls-linear'] = o.which_distance(10.0 ** (-p / 10.0))
+                for name, v in forms.items():
+                    if not _same(ref, v, 1e-9):
+                        return 'R8:%s:which:%s' % (kind, name), 'PL=%r walls %r: %r vs %r' % (p, nw, v, ref)
+        # ---- plot helper: argument forms hand the axes the same curve
+        recs = []
+        for form in range(5):
+            ax = _AxRec()
+            if form == 0:
+                o.plot_deterministic_path_loss_in_dB(arr, ax)
+            elif form == 1:
+                o.plot_deterministic_path_loss_in_dB(d=arr, ax=ax, extra_args=None)
+            elif form == 2:
+                o.plot_deterministic_path_loss_in_dB(arr, ax, {})
+            elif form == 3:
+                o.plot_deterministic_path_loss_in_dB(arr, ax=ax, extra_args={'label': 'x'})
+            else:
+                o._plot_deterministic_path_loss_in_dB_impl(arr, ax, None)
+            recs.append(ax.calls)
+        base = recs[0]
+        if len(base) != 1 or not _same(base[0][0][0], arr) or \
+                not _same(base[0][0][1], o.calc_path_loss_dB(arr) if kind != 'ps7' else o.calc_path_loss_dB(arr, num_walls=0), 1e-12):
+            return 'R8:%s:plot-curve' % kind, 'the axes received %r' % (base,)
+        for i, rcd in enumerate(recs[1:], 1):
+            if len(rcd) != 1 or rcd[0][0] != base[0][0]:
+                return 'R8:%s:plot-form-%d' % (kind, i), 'argument form %d plots %r, form 0 %r' % (i, rcd, base)
+        if recs[3][0][1] != ('label',):
+            return 'R8:%s:plot-extra-args' % kind, 'extra_args not forwarded: %r' % (recs[3],)
+    # ---- constructor path = setter path = later replacement
+    if kind == 'fs':
+        n, fc = o.n, o.fc
+        twins = {'positional': pl.PathLossFreeSpace(n, fc), 'keyword': pl.PathLossFreeSpace(fc=fc, n=n),
+                 'setters': pl.PathLossFreeSpace(), 'replaced': pl.PathLossFreeSpace(5.5, 17.0)}
+        for k in ('setters', 'replaced'):
+            twins[k].fc = fc
+            twins[k].n = n
+        g = pl.PathLossGeneral(n, o._C)
+        g2 = pl.PathLossGeneral(C=o._C, n=n)
+        twins['general'], twins['general-keyword'] = g, g2
+        if not (vars(pl.PathLossFreeSpace()) == vars(pl.PathLossFreeSpace(2.0, 900.0)) == vars(pl.PathLossFreeSpace(n=2.0, fc=900.0))):
+            return 'R8:fs:explicit-default', 'PathLossFreeSpace() differs from PathLossFreeSpace(2.0, 900.0)'
+    elif kind == 'ps7':
+        twins = {'positional': pl.PathLossMetisPS7(o.fc), 'keyword': pl.PathLossMetisPS7(fc=o.fc),
+                 'setters': pl.PathLossMetisPS7(), 'replaced': pl.PathLossMetisPS7(123.0)}
+        for k in ('setters', 'replaced'):
+            twins[k].fc = o.fc
+        if vars(pl.PathLossMetisPS7()) != vars(pl.PathLossMetisPS7(900.0)):
+            return 'R8:ps7:explicit-default', 'PathLossMetisPS7() differs from PathLossMetisPS7(900.0)'
+    elif kind == 'gpp':
+        twins = {'general': pl.PathLossGeneral(3.76, 128.1), 'general-keyword': pl.PathLossGeneral(C=128.1, n=3.76)}
+    elif kind == 'gen':
+        twins = {'keyword': pl.PathLossGeneral(C=case['ctor'][1], n=case['ctor'][0])}
+    else:
+        twins = {}
+    for name, t in twins.items():
+        t.handle_small_distances_bool = True
+        a, b = call_db(o, arr, nw), call_db(t, arr, nw)
+        if not _same(a, b):
+            return 'R8:%s:ctor-vs-%s' % (kind, name), 'object %r, twin built by %s %r' % (np.asarray(a).tolist(), name, np.asarray(b).tolist())
+        if kind != 'oh' and not _same(o.which_distance_dB(77.0, **kw), t.which_distance_dB(77.0, **kw)):
+            return 'R8:%s:ctor-vs-%s' % (kind, name), 'which_distance_dB differs'
+    return None
+
+
+def o_counts(case):
+    """R9: the wall count (and the sector count) as python int, numpy integers of every width, intp, bool, 0-d
+    array, including counts above 256: the answer is that of the python int"""
+    pl, ag = _impl()
+    if case['kind'] == 'ant':
+        for k in (3, 6):
+            ref = ag.AntGainBS3GPP25996(k)
+            for ct in ('int8', 'uint8', 'int16', 'int64', 'uint64', 'intp', '0d'):
+                try:
+                    a = ag.AntGainBS3GPP25996(make_count(k, {'wstype': ct}))
+                except Exception as e:
+                    return 'R9:ant:%s' % ct, 'AntGainBS3GPP25996(%s(%d)) raised %r' % (ct, k, e)
+                if (a.theta_3db, a.Am, a.ant_gain) != (ref.theta_3db, ref.Am, ref.ant_gain):
+                    return 'R9:ant:%s' % ct, 'sector count %s(%d) gives other parameters' % (ct, k)
+        for bad in (True, np.int8(4), np.array(5), 300):
+            try:
+                ag.AntGainBS3GPP25996(bad)
+                return 'R9:ant:accepted-%r' % (bad,), 'sector count %r accepted' % (bad,)
+            except ValueError:
+                pass
+        return None
+    o, _ = build(case)
+    o.handle_small_distances_bool = True
+    w = int(case['walls'])
+    d = _dists(case)
+    arr = np.array(d, dtype=float)
+    bucket = '<27' if w < 27 else '27..255' if w < 256 else '>=256'
+    with warnings.catch_warnings():
+        warnings.simplefilter('ignore')
+        ref = (float(o.calc_path_loss_dB(d[0], num_walls=w)), np.asarray(o.calc_path_loss_dB(arr, num_walls=w)),
+               float(o.calc_path_loss(d[0], num_walls=w)), float(o.which_distance_dB(88.0, num_walls=w)),
+               float(o.which_distance(1e-9, num_walls=w)))
+        step = float(o._calc_deterministic_path_loss_dB(d[0], max(w, 1) + 1)) - float(o._calc_deterministic_path_loss_dB(d[0], max(w, 1)))
+        if abs(step - (float(o._calc_deterministic_path_loss_dB(d[0], 2)) - float(o._calc_deterministic_path_loss_dB(d[0], 1)))) > 1e-9:
+            return 'R9:ps7:int:%s' % bucket, 'the loss step per wall at %d walls is %r' % (w, step)
+        for ct in case['types']:
+            if not count_fits(w, ct):
+                continue
+            c = make_count(w, {'wstype': ct})
+            cls = 'R9:ps7:%s:%s' % (ct, bucket)
+            try:
+                got = (float(o.calc_path_loss_dB(d[0], num_walls=c)), np.asarray(o.calc_path_loss_dB(arr, num_walls=c)),
+                       float(o.calc_path_loss(d[0], num_walls=c)), float(o.which_distance_dB(88.0, num_walls=c)),
+                       float(o.which_distance(1e-9, num_walls=c)))
+            except Exception as e:
+                return cls, '%d walls as %s: %r' % (w, ct, e)
+            for name, a, b in zip(('calc_path_loss_dB', 'calc_path_loss_dB(array)', 'calc_path_loss', 'which_distance_dB',
+                                   'which_distance'), got, ref):
+                if not _same(a, b, 1e-12):
+                    return cls, '%s with %d walls as %s: %r, as int %r' % (name, w, ct, np.asarray(a).tolist(), np.asarray(b).tolist())
+            if ct not in ('bool', '0d', 'int') and w > 0:
+                wa = np.array([w, 0, w], dtype=ct)
+                ga = np.asarray(o.calc_path_loss_dB(np.array([d[0], d[0], d[-1]]), num_walls=wa), dtype=float)
+                ea = [float(o.calc_path_loss_dB(d[0], num_walls=w)), float(o.calc_path_loss_dB(d[0], num_walls=0)),
+                      float(o.calc_path_loss_dB(d[-1], num_walls=w))]
+                if not _same(ga, ea, 1e-12):
+                    return cls + ':array', 'wall-count array %r of dtype %s: %r, expected %r' % (wa.tolist(), ct, ga.tolist(), ea)
+    return None
+
+
+def o_derived(case):
+    """R13: an object derived from another (copy / deepcopy / pickle round trip) and then changed further stays
+    independent of its parent, and the parent of the child; a round trip of the child gives back the child"""
+    import copy
+    import pickle
+    kind = case['kind']
+    nw = case.get('nw')
+    d = _dists(case)
+    parent, _ = build(case)
+    how = case['how']
+    child = {'copy': copy.copy, 'deepcopy': copy.deepcopy, 'pickle': lambda x: pickle.loads(pickle.dumps(x))}[how](parent)
+    if config_of(child) != config_of(parent) or observe(child, d, nw) != observe(parent, d, nw):
+        return 'R13:%s:%s:child-differs' % (kind, how), 'the derived object differs from its parent'
+    p_before = observe(parent, d, nw)
+    for name, v in case['child_hist']:
+        apply_setter(child, name, v)
+    if observe(parent, d, nw) != p_before:
+        return 'R13:%s:%s:parent-follows-child' % (kind, how), 'setters %r on the child changed the parent' % (case['child_hist'],)
+    expect_child, _ = build({'kind': kind, 'ctor': case.get('ctor'), 'hist': list(case.get('hist', [])) + list(case['child_hist'])})
+    if observe(child, d, nw) != observe(expect_child, d, nw):
+        return 'R13:%s:%s:child-history' % (kind, how), 'the child does not behave like an object with the joint history'
+    c_before = observe(child, d, nw)
+    for name, v in case['parent_hist']:
+        apply_setter(parent, name, v)
+    if observe(child, d, nw) != c_before:
+        return 'R13:%s:%s:child-follows-parent' % (kind, how), 'setters %r on the parent changed the child' % (case['parent_hist'],)
+    again = pickle.loads(pickle.dumps(child))
+    again2 = copy.deepcopy(child)
+    for x in (again, again2):
+        if observe(x, d, nw) != c_before:
+            return 'R13:%s:%s:round-trip' % (kind, how), 'a round trip of the child does not give back the child'
+    return None
+
+
+def o_bigcount(case):
+    """R14: counts of 257, 258, 300, 65537 entries / setter calls"""
+    pl, ag = _impl()
+    kind = case['kind']
+    N = int(case['N'])
+    rs = np.random.RandomState(case['npseed'])
+    if kind == 'ant':
+        a = ag.AntGainBS3GPP25996(case['sectors'])
+        ang = rs.uniform(-180.0, 180.0, N)
+        g = np.asarray(a.get_antenna_gain(ang), dtype=float)
+        if g.shape != (N,):
+            return 'R14:ant:N=%d' % N, 'shape %r' % (g.shape,)
+        for i in [0, N - 1] + rs.randint(0, N, 40).tolist():
+            if not num_close(float(g[i]), float(a.get_antenna_gain(float(ang[i]))), True, 1e-12):
+                return 'R14:ant:N=%d' % N, 'entry %d of %d' % (i, N)
+        return None
+    nw = case.get('nw')
+    case2 = dict(case)
+    if case.get('long_history'):
+        case2['hist'] = list(case.get('hist', []))
+    o, _ = build(case2)
+    o.handle_small_distances_bool = True
+    lo, hi = (-1.0, 5.0) if kind == 'ps7' else (-3.0, 3.0)
+    dist = np.sort(10.0 ** rs.uniform(lo - 4.0, hi, N))
+    with warnings.catch_warnings():
+        warnings.simplefilter('ignore')
+        r = np.asarray(call_db(o, dist, nw), dtype=float)
+        if r.shape != (N,):
+            return 'R14:%s:N=%d' % (kind, N), 'shape %r' % (r.shape,)
+        if np.any(np.diff(r) < -1e-9) or np.any(r < 0):
+            return 'R14:%s:N=%d' % (kind, N), 'not monotone / negative over %d sorted distances' % N
+        idx = [0, 1, N - 2, N - 1] + rs.randint(0, N, 60).tolist()
+        for i in idx:
+            if not num_close(float(r[i]), float(call_db(o, float(dist[i]), nw)), False, 1e-9):
+                return 'R14:%s:N=%d' % (kind, N), 'entry %d of %d: %r vs scalar %r' % (i, N, r[i], call_db(o, float(dist[i]), nw))
+        lin = np.asarray(call_lin(o, dist, nw), dtype=float)
+        if not _same(lin, 10.0 ** (-r / 10.0), 1e-12):
+            return 'R14:%s:N=%d' % (kind, N), 'linear values differ from 10^(-dB/10)'
+        if kind != 'oh':
+            back = np.asarray(o.which_distance_dB(r, **_kw(nw)), dtype=float)
+            pos = r > 1e-6
+            if not np.all(np.abs(back[pos] - dist[pos]) <= 1e-9 * dist[pos]):
+                return 'R14:%s:N=%d' % (kind, N), 'which_distance_dB over %d losses is not the inverse' % N
+        if kind == 'ps7':
+            walls = rs.randint(0, 7, N)
+            rw = np.asarray(o.calc_path_loss_dB(dist, num_walls=walls), dtype=float)
+            for i in idx:
+                e = float(o.calc_path_loss_dB(float(dist[i]), num_walls=int(walls[i])))
+                if not num_close(float(rw[i]), e, False, 1e-9):
+                    return 'R14:ps7:walls:N=%d' % N, 'entry %d: %r vs %r' % (i, rw[i], e)
+    return o_history(case2) if case.get('long_history') else None
+
+
 def o_history_exception(case):
     """replay of an exception the library raised while a history was being prepared: run the recorded ops, then
     the preparation steps (deterministic loss of a distance grid, scalar / array, every wall count)"""
@@ -1866,6 +2287,10 @@ ORACLES = {
     'robust.shared': o_shared,
     'robust.nonmutating': o_nonmutating,
     'robust.flagtypes': o_flagtypes,
+    'robust.argforms': o_argforms,
+    'robust.counts': o_counts,
+    'robust.derived': o_derived,
+    'robust.bigcount': o_bigcount,
     'history.exception': o_history_exception,
 }
 
@@ -1918,6 +2343,8 @@ SHAPES = {1: [[1], [1, 1]], 2: [[2], [2, 1], [1, 2]], 4: [[4], [2, 2], [4, 1], [
 
 def conv_value(v, dt, vk):
     """the value of kind `vk` ('dist' | 'db' | 'lin' | 'angle') made exactly representable in dtype `dt`"""
+    if dt == 'mixed':
+        return max(0.5, round(abs(v) * 2.0) / 2.0) * (-1.0 if (v < 0 and vk == 'angle') else 1.0)
     if dt in INT_TYPES or dt == 'int':
         info = np.iinfo('int64' if dt == 'int' else dt)
         lo = 1 if vk in ('dist', 'lin') else (0 if vk == 'db' else max(info.min, -180))
@@ -1947,8 +2374,10 @@ def rand_array_fmt(rng, vk, allow_seq=True, allow_empty=True):
         return 0, {'dtype': dt, 'shape': shape, 'layout': 'C'}
     if r < 0.10:
         return 1, {'dtype': dt, 'layout': '0d'}
-    if allow_seq and r < 0.20 and dt in ('float64', 'int64'):
+    if allow_seq and r < 0.16 and dt in ('float64', 'int64'):
         return rng.choice([1, 2, 4, 6]), {'dtype': dt, 'layout': rng.choice(['list', 'tuple'])}
+    if allow_seq and r < 0.22 and vk in ('dist', 'angle'):
+        return rng.choice([2, 4, 6, 7]), {'dtype': 'float64', 'layout': 'mixed', 'first': rng.choice(['int', 'any'])}
     n = rng.choice([1, 2, 4, 6, 8, 12])
     shape = rng.choice(SHAPES[n])
     lay = rng.choice(['C', 'C', 'F', 'T', 'rev', 'stride2', 'bcast'])
@@ -1993,9 +2422,9 @@ def typed_dists(rng, o, nw, lo, hi, small_p=0.3, allow_seq=True):
     vals = []
     for _ in range(n):
         v = gen_dist(rng, -9.0, -4.0) if (rng.chance(small_p) and dt not in INT_TYPES) else gen_dist(rng, lo, hi)
-        if dt in INT_TYPES:
+        if dt in INT_TYPES or fmt.get('layout') == 'mixed':
             v = 10.0 ** rng.uniform(0.0, 2.3)
-        vals.append(conv_value(v, dt, 'dist'))
+        vals.append(conv_value(v, 'mixed' if fmt.get('layout') == 'mixed' else dt, 'dist'))
     if not safe_values(o, logical_values(vals, fmt), nw, fmt):
         return None
     return vals, fmt
@@ -2117,10 +2546,51 @@ def robust_oracles(ctx, n_cases, hist_len):
                        {'kind': kind, 'ctor': base['ctor'], 'hist': base['hist'], 'nw': nw, 'calls': calls,
                         'flags': {'small': small, 'shadow': shadow, 'sigma': nice(rng, rng.uniform(0.5, 12.0))},
                         'd': [gen_dist(rng, lo, hi) for _ in range(3)], 'npseed': rng.below(1 << 30)})
+        # ---- R8 argument forms / equivalent entry points; R9 counts; R13 derived objects
+        ctx.branch('oracle:R8:argforms')
+        run_oracle(ctx, 'robust.argforms', {'kind': kind, 'ctor': base['ctor'], 'hist': base['hist'], 'nw': nw,
+                                            'd': [gen_dist(rng, lo, hi) for _ in range(3)],
+                                            'pl': [nice(rng, rng.uniform(1.0, 200.0)) for _ in range(2)]})
+        if kind == 'ps7':
+            w = rng.choice([0, 1, 2, 5, 26, 27, 53, 100, 127, 128, 255, 256, 257, 300, 1000])
+            ctx.branch('oracle:R9:walls' + ('>=256' if w >= 256 else '<256'))
+            run_oracle(ctx, 'robust.counts', {'kind': 'ps7', 'ctor': base['ctor'], 'hist': base['hist'], 'walls': w,
+                                              'types': COUNT_TYPES, 'd': [gen_dist(rng, 0.0, 4.0) for _ in range(2)]})
+        how = rng.choice(['copy', 'deepcopy', 'pickle'])
+        mk = (lambda: fs_setter(rng)) if kind == 'fs' else (lambda: oh_setter(rng)) if kind == 'oh' else \
+            (lambda: ['fc', nice(rng, logu(rng, 2.0, 5.0))] if rng.chance(0.7) else ['small', rng.below(2)]) if kind == 'ps7' \
+            else (lambda: ['small', rng.below(2)])
+        ctx.branch('oracle:R13:' + how)
+        run_oracle(ctx, 'robust.derived', {'kind': kind, 'ctor': base['ctor'], 'hist': base['hist'], 'nw': nw, 'how': how,
+                                           'child_hist': [mk() for _ in range(rng.randint(1, 4))],
+                                           'parent_hist': [mk() for _ in range(rng.randint(1, 4))],
+                                           'd': [gen_dist(rng, lo, hi) for _ in range(3)]})
         if i < 5 * len(kinds):
             ctx.branch('oracle:R1:flag-types')
             run_oracle(ctx, 'robust.flagtypes', {'kind': kind, 'ctor': base['ctor'], 'hist': base['hist'], 'nw': nw,
                                                  'd': [gen_dist(rng, 0.0 if kind != 'ps7' else 1.0, hi)]})
+    # ---- R14: counts of 257 / 258 / 300 / 65537 (one of each size class per quick run, more in thorough)
+    sizes = [257, 258, 300, 65537] if n_cases < 2000 else [257, 258, 300, 65537] * 4 + [256, 1024, 4097]
+    for j, N in enumerate(sizes):
+        kind = ['fs', 'ps7', 'oh', 'gpp', 'gen'][j % 5]
+        base = oracle_case(rng, kind, 4)
+        c = {'kind': kind, 'ctor': base['ctor'], 'hist': base['hist'], 'nw': base.get('nw'), 'N': N,
+             'npseed': rng.below(1 << 30), 'd': base['d'], 'pl': base['pl']}
+        if N <= 300 and kind in ('fs', 'oh', 'ps7'):
+            mk = (lambda: fs_setter(rng)) if kind == 'fs' else (lambda: oh_setter(rng)) if kind == 'oh' else \
+                (lambda: ['fc', nice(rng, logu(rng, 2.0, 5.0))])
+            c['hist'] = [mk() for _ in range(N)]          # a history of N setter calls
+            c['long_history'] = True
+            ctx.branch('oracle:R14:history-of-N-setters')
+        ctx.branch('oracle:R14:N=%d' % N if N in (257, 258, 300, 65537) else 'oracle:R14:other')
+        run_oracle(ctx, 'robust.bigcount', c)
+    run_oracle(ctx, 'robust.bigcount', {'kind': 'ant', 'sectors': 3, 'N': 65537, 'npseed': rng.below(1 << 30)})
+    run_oracle(ctx, 'robust.bigcount', {'kind': 'ant', 'sectors': 6, 'N': 257, 'npseed': rng.below(1 << 30)})
+    for rep in range(3):
+        ctx.branch('oracle:R8:argforms-ant')
+        run_oracle(ctx, 'robust.argforms', {'kind': 'ant', 'angles': [nice(rng, rng.uniform(-180.0, 180.0)) for _ in range(4)]})
+    ctx.branch('oracle:R9:sectors')
+    run_oracle(ctx, 'robust.counts', {'kind': 'ant'})
     # ---- antenna: typed / shaped angle arrays (int16 matters: 12*angle**2 overflows there), boundaries
     for i in range(max(12, n_cases // 4)):
         if rng.chance(0.25):
@@ -2156,9 +2626,13 @@ ROBUST_REQUIRED = (
                              'R4:bad-type', 'R4:plot-raise', 'R4:setter', 'R4:which-not-offered', 'R4:neg-walls',
                              'R4:neg-walls-which', 'R5:boundary', 'R6:scale', 'R7:shared', 'ant:R1:int-array',
                              'ant:R1:int16-wide-angles', 'ant:R1:narrow-float-array', 'ant:R2:2d',
+                             'R8:argforms', 'R8:argforms-ant', 'R9:walls>=256', 'R9:walls<256', 'R9:sectors',
+                             'R10:mixed-list', 'R13:copy', 'R13:deepcopy', 'R13:pickle', 'R14:N=257', 'R14:N=258',
+                             'R14:N=300', 'R14:N=65537', 'R14:history-of-N-setters',
                              'R1:flag-types', 'R7:nonmut:flags=s1h0', 'R7:nonmut:flags=s0h1', 'R7:nonmut:flags=s1h1',
                              'R7:nonmut:flags=s0h0', 'R7:nonmut:query', 'R7:nonmut:nop')]
     + ['oracle:R7:nonmut:' + c for c in NONMUT_CALLS if c.startswith('plot')]
+    + ['corr:' + b for b in ('R9:count-type', 'R9:count>=256', 'R10:mixed-list', 'R14:N>=257')]
     + ['corr:' + b for b in ('R7:flags=s1h0', 'R7:flags=s0h1', 'R7:flags=s1h1', 'R7:flags=s0h0', 'R7:plot',
                              'R7:plot-too-small', 'R7:plot-axes-raise', 'R7:nop:copy', 'R7:nop:call')]
     + ['corr:' + b for b in ('R1:int-scalar', 'R1:npint-scalar', 'R1:int-array', 'R1:uint8-array',
